@@ -34,11 +34,17 @@ type Ctx struct {
 func (c *Ctx) Describe(f string, a ...any) {
 	c.Desc = append(c.Desc, fmt.Sprintf(f, a...))
 	lastDesc = c.Desc
+	if descLive {
+		// debugging aid for a run that never ends: the description as it is made
+		fmt.Fprintln(os.Stderr, "CASE-LIVE", c.Desc[len(c.Desc)-1])
+	}
 }
 
 // lastDesc: the description of the run in progress, for reports written by a
 // deferred function when the testing package ends the test early (race builds).
 var lastDesc []string
+
+var descLive = os.Getenv("ZSIM_DESCLIVE") != ""
 
 // ignoreLeak is set by a workload that simulated the death of the process:
 // goroutines of the dead process that are still blocked when the bubble ends
